@@ -1,4 +1,5 @@
 """C02: header-type sections display exactly the encoded values (PH, UH, EH, MT, LP, component id)."""
+import os
 from contracts.common import *
 from pyvc.unit import Unit
 
@@ -115,7 +116,12 @@ class EH(SectionUnit):
     name = "ExtendedUserHeader.toJSON"
     target = PT + "extend_user_header.ExtendedUserHeader.toJSON"
     cls = PT + "extend_user_header.ExtendedUserHeader"
-    SYM = [0, 1, 2, 3, 4, 8, 16, 20, 40, 80]     # symptom-id lengths proved (text of that many chars); others bounded
+    @property
+    def SYM(self):
+        # symptom-id lengths proved: quick a representative set, thorough every length 0..80 (the field is at most 80)
+        if os.environ.get("PYVC_TIER") == "thorough":
+            return list(range(0, 81))
+        return [0, 1, 2, 3, 4, 8, 16, 20, 40, 80]
 
     def inputs(self, S):
         inp = SectionUnit.inputs(self, S)
@@ -157,9 +163,19 @@ class LP(SectionUnit):
     name = "ImpactedPartition.toJSON"
     target = PT + "imp_partition.ImpactedPartition.toJSON"
     cls = PT + "imp_partition.ImpactedPartition"
-    counts = list(range(0, 8))
     names = [0, 1, 5, 16]
     max_unroll = 600
+
+    @property
+    def shards(self):
+        return 16 if os.environ.get("PYVC_TIER") == "thorough" else 1
+
+    @property
+    def counts(self):
+        # quick: 0..7 targets; thorough: every count 0..255, split over 16 shards
+        if os.environ.get("PYVC_TIER") == "thorough":
+            return [c for c in range(256) if c % 16 == self.shard]
+        return list(range(0, 8))
 
     def inputs(self, S):
         inp = SectionUnit.inputs(self, S)
@@ -278,3 +294,84 @@ class DisplayCompID(Unit):
 
 
 UNITS = [PH, UH, MT, EH, LP, DisplayCompID]
+
+
+# ------------------------------------------------------------------ C05: a section decoder never returns for a truncated section
+class _NoReturnOnTruncation(SectionUnit):
+    """for ANY bytes (no well-formedness assumed), in both assert modes: if the decoder returns, every byte of the
+    section's own layout was inside the input (cursor == start + body length <= size); otherwise it raised an ordinary
+    exception"""
+    prop = "C05"
+    modes = ('assert', 'O')
+    body = None           # function (d, o) -> body length
+
+    def pre(self, S, inp):
+        c = self.creator_ascii(inp) if self.with_creator else True
+        return And(ds_invariant(inp['stream']), c)
+
+    def check(self, P, inp, old, out):
+        s = inp['stream']
+        d, o = old['stream'].data, old['stream'].index
+        if not out.returned:
+            P.prove(issubclass(out.exc_class, Exception), "fails only with an ordinary exception")
+            return
+        n = self.body(d, o)
+        P.prove(Eq(field(s, 'index'), o + n), "returns only after consuming the section's whole layout")
+        P.prove(field(s, 'index') <= field(s, 'size'), "which lies inside the input (nothing is decoded from missing bytes)")
+
+
+class PHAny(_NoReturnOnTruncation):
+    name = "PrivateHeader.toJSON (any bytes)"
+    target = PT + "private_header.PrivateHeader.toJSON"
+    cls = PT + "private_header.PrivateHeader"
+    with_creator = False
+    body = staticmethod(lambda d, o: 40)
+
+
+class UHAny(_NoReturnOnTruncation):
+    name = "UserHeader.toJSON (any bytes)"
+    target = PT + "user_header.UserHeader.toJSON"
+    cls = PT + "user_header.UserHeader"
+    shards = 16
+
+    def pre(self, S, inp):
+        d, o = field(inp['stream'], 'data'), field(inp['stream'], 'index')
+        # the action-flag loop forks per defined bit: shard on the top nibble (only constrains bytes that are present)
+        return And(_NoReturnOnTruncation.pre(self, S, inp), Implies(o + 11 <= field(inp['stream'], 'size'), Eq(shr(byte(d, o + 10), 4), self.shard)))
+    body = staticmethod(lambda d, o: 16)
+
+
+class MTAny(_NoReturnOnTruncation):
+    name = "FailingMTMS.toJSON (any bytes)"
+    target = PT + "failing_mtms.FailingMTMS.toJSON"
+    cls = PT + "failing_mtms.FailingMTMS"
+    body = staticmethod(lambda d, o: 20)
+
+
+class EHAny(_NoReturnOnTruncation):
+    name = "ExtendedUserHeader.toJSON (any bytes)"
+    target = PT + "extend_user_header.ExtendedUserHeader.toJSON"
+    cls = PT + "extend_user_header.ExtendedUserHeader"
+    body = staticmethod(lambda d, o: 68 + byte(d, o + 67))
+
+
+class LPAny(_NoReturnOnTruncation):
+    name = "ImpactedPartition.toJSON (any bytes)"
+    target = PT + "imp_partition.ImpactedPartition.toJSON"
+    cls = PT + "imp_partition.ImpactedPartition"
+    max_unroll = 300
+    shards = 8
+
+    def pre(self, S, inp):
+        d, o = field(inp['stream'], 'data'), field(inp['stream'], 'index')
+        # target counts are enumerated through the shards (count mod 8), kept small enough to unroll: 0..23
+        return And(_NoReturnOnTruncation.pre(self, S, inp),
+                   Implies(o + 4 <= field(inp['stream'], 'size'), And(Eq(mod(byte(d, o + 3), 8), self.shard), byte(d, o + 3) < 24)))
+
+    @staticmethod
+    def body(d, o):
+        n = byte(d, o + 3)
+        return 8 + byte(d, o + 2) + 2 * n + If(Eq(mod(n, 2), 1), 2, 0)
+
+
+C05_SECTION_UNITS = [PHAny, UHAny, MTAny, EHAny, LPAny]
